@@ -286,15 +286,97 @@ type keyTemplate struct {
 // builderTemplates enumerates the paths of a small builder function and collects the sequence of
 // strings.Builder writes (and string concatenations returned) with the branch outcomes taken.
 func builderTemplates(fn *ssa.Function) []keyTemplate {
+	return builderTemplatesDepth(fn, 0)
+}
+
+// substituteParams rewrites the ⟨strparam#k⟩ operands of a helper's template with the actual arguments of
+// the delegating call (literals become literals, the caller's own parameters keep their caller-side role).
+func substituteParams(t keyTemplate, helper *ssa.Function, args []ssa.Value, resolve func(ssa.Value) ssa.Value) keyTemplate {
+	// helper's string parameters in order
+	var strArgs []ssa.Value
+	for i, p := range helper.Params {
+		if b, isB := p.Type().Underlying().(*types.Basic); isB && b.Kind() == types.String && i < len(args) {
+			strArgs = append(strArgs, args[i])
+		}
+	}
+	out := keyTemplate{Conds: append([]string{}, t.Conds...)}
+	for _, part := range t.Parts {
+		repl := part
+		for k, a := range strArgs {
+			if part == fmt.Sprintf("⟨strparam#%d⟩", k) {
+				a = resolve(a)
+				if s, ok := constStrOf(a); ok {
+					repl = fmt.Sprintf("%q", s)
+				} else {
+					repl = "⟨" + operandName(a) + "⟩"
+				}
+			}
+		}
+		out.Parts = append(out.Parts, repl)
+	}
+	return out
+}
+
+func builderTemplatesDepth(fn *ssa.Function, depth int) []keyTemplate {
 	var out []keyTemplate
-	var walk func(b *ssa.BasicBlock, parts, conds []string, seen map[*ssa.BasicBlock]bool)
-	walk = func(b *ssa.BasicBlock, parts, conds []string, seen map[*ssa.BasicBlock]bool) {
+	// phiEnv: value of the φ-nodes of the blocks entered so far on this path
+	type phiEnv map[*ssa.Phi]ssa.Value
+	var walk func(b, prev *ssa.BasicBlock, parts, conds []string, seen map[*ssa.BasicBlock]bool, env phiEnv)
+	walk = func(b, prev *ssa.BasicBlock, parts, conds []string, seen map[*ssa.BasicBlock]bool, env phiEnv) {
 		if seen[b] || len(out) > 64 {
 			return
 		}
 		seen = copySeen(seen)
 		seen[b] = true
+		if prev != nil {
+			ne := phiEnv{}
+			for k, v := range env {
+				ne[k] = v
+			}
+			env = ne
+			for idx, p := range b.Preds {
+				if p != prev {
+					continue
+				}
+				for _, in := range b.Instrs {
+					if ph, ok := in.(*ssa.Phi); ok && idx < len(ph.Edges) {
+						env[ph] = ph.Edges[idx]
+					}
+				}
+			}
+		}
+		resolve := func(v ssa.Value) ssa.Value {
+			for i := 0; i < 4; i++ {
+				ph, ok := v.(*ssa.Phi)
+				if !ok {
+					break
+				}
+				nv, ok := env[ph]
+				if !ok {
+					break
+				}
+				v = nv
+			}
+			return v
+		}
 		for _, in := range b.Instrs {
+			if r, ok := in.(*ssa.Return); ok && len(parts) == 0 && depth < 2 {
+				// a builder that delegates to a shared helper: its templates are the helper's, with the
+				// arguments substituted
+				vals := retVals(r)
+				if len(vals) == 1 {
+					if call, ok := vals[0].(*ssa.Call); ok {
+						if h := call.Call.StaticCallee(); h != nil && len(h.Blocks) > 0 && h.Pkg == fn.Pkg && h != fn {
+							for _, ht := range builderTemplatesDepth(h, depth+1) {
+								st := substituteParams(ht, h, call.Call.Args, resolve)
+								st.Conds = append(append([]string{}, conds...), st.Conds...)
+								out = append(out, st)
+							}
+							return
+						}
+					}
+				}
+			}
 			if call, ok := in.(*ssa.Call); ok {
 				if f := call.Call.StaticCallee(); f != nil && f.Signature.Recv() != nil && typeShort(f.Signature.Recv().Type()) == "Builder" {
 					switch f.Name() {
@@ -325,17 +407,17 @@ func builderTemplates(fn *ssa.Function) []keyTemplate {
 		if len(b.Instrs) > 0 {
 			if ifi, ok := b.Instrs[len(b.Instrs)-1].(*ssa.If); ok && len(b.Succs) == 2 {
 				d := D(ifi.Cond)
-				walk(b.Succs[0], append([]string{}, parts...), append(append([]string{}, conds...), d), seen)
-				walk(b.Succs[1], append([]string{}, parts...), append(append([]string{}, conds...), "!"+d), seen)
+				walk(b.Succs[0], b, append([]string{}, parts...), append(append([]string{}, conds...), d), seen, env)
+				walk(b.Succs[1], b, append([]string{}, parts...), append(append([]string{}, conds...), "!"+d), seen, env)
 				return
 			}
 		}
 		for _, s := range b.Succs {
-			walk(s, append([]string{}, parts...), append([]string{}, conds...), seen)
+			walk(s, b, append([]string{}, parts...), append([]string{}, conds...), seen, env)
 		}
 	}
 	if len(fn.Blocks) > 0 {
-		walk(fn.Blocks[0], nil, nil, map[*ssa.BasicBlock]bool{})
+		walk(fn.Blocks[0], nil, nil, nil, map[*ssa.BasicBlock]bool{}, phiEnv{})
 	}
 	return out
 }
